@@ -241,7 +241,7 @@ def check(prop, tier, seed, verbose=False):
         rounds = run.get("rounds_" + tier, run.get("rounds", 100))
         for p in range(nproc):
             jobs.append((outs[(run.get("src", spec["src"]), run["variant"])], run, p, rounds))
-    timeout_s = spec.get("timeout_" + tier, 600 if tier == "quick" else 3600)
+    timeout_s = spec.get("timeout_" + tier, 300 if tier == "quick" else 3600)
     results = []
 
     def do(job):
